@@ -4,6 +4,7 @@
 package world
 
 import (
+	"strings"
 	"encoding/json"
 	"fmt"
 	"sort"
@@ -93,6 +94,9 @@ var nameCache = func() map[string]string {
 func NameOf(addr string) string {
 	if n, ok := nameCache[addr]; ok {
 		return n
+	}
+	if n, ok := nameCache[strings.ToLower(addr)]; ok && strings.ToUpper(addr) == addr {
+		return n + "^" // the same account, written in upper case
 	}
 	return addr
 }
